@@ -306,7 +306,11 @@ def run(oc, tier, seed):
             tt = t.strip("[]") if re.fullmatch(r"\[?\d{6}#\w{2,3}\]?", t) else t
             impl_single[tt] = list(impl_run(d, "single.zo", i + 1, None))
         corpus = [json.load(open(f))["line"] for f in sorted(glob.glob(os.path.join(lib.VERIF, "corpus", "C17", "*.json")))]
-        lines = corpus + [gen_line(rng) for _ in range(n)]
+        # continuation lines (indented): they have no ZID of their own, every ZID on them is a reference, also when only
+        # links and ZIDs precede it
+        fixed = ["  [240101#02] [240102#01]", "  [[foo]] [240101#02]", "    240102#03 [#alpha] 240101#000", "  * [240102#0A5] 240101#02",
+                 "  see [240101#02], [240102#01]."]
+        lines = corpus + fixed + [gen_line(rng) for _ in range(n)]
         write_tree(d, {"lines.zo": "\n".join(lines) + "\n", "lines.zoq": "\n".join(lines) + "\n"})
         for i, line in enumerate(lines):
             for path in ("lines.zo", "lines.zoq"):
